@@ -628,7 +628,7 @@ def _check_split(ctx, module, pv, loop, mname, vname, malformed):
                 tries = G.enclosing_try_handlers(module, n)
                 for t in tries:
                     for h in t.handlers:
-                        names_h = G.handler_names(h)
+                        names_h = G.handler_names(h, module)
                         if any(x in ("ValueError", "Exception", "*", "BaseException") for x in names_h):
                             raises = [x for x in ast.walk(h) if isinstance(x, ast.Raise)]
                             if G.terminates(h.body) and raises and all(
